@@ -26,6 +26,9 @@ type UnitResult struct {
 	Preludes   []string
 	File       string
 	Bounded    string
+	Replay     string
+	Pkg        string
+	Watches    [][2]string
 }
 
 const fixedHeader = `(set-logic ALL)
@@ -78,7 +81,7 @@ func hasProp(ps []string, p string) bool {
 
 func (en *Engine) RunUnit(key string) (res *UnitResult) {
 	fc := en.CS.Funcs[key]
-	res = &UnitResult{Name: shortName(key), Full: key, Kind: "func", Props: fc.Props, File: fc.File, Bounded: fc.Bounded}
+	res = &UnitResult{Name: shortName(key), Full: key, Kind: "func", Props: fc.Props, File: fc.File, Bounded: fc.Bounded, Replay: fc.Replay, Pkg: fc.Pkg}
 	defer func() {
 		if r := recover(); r != nil {
 			if be, ok := r.(BindingError); ok {
@@ -195,10 +198,28 @@ func (en *Engine) finish(e *Exec, fc *FuncContract, res *UnitResult) {
 	for _, d := range so.decls {
 		hdr.WriteString(d + "\n")
 	}
+	mfOK := func(hn string) bool { // model-field heaps need the sorts of their declaring file's preludes
+		if !strings.HasPrefix(hn, "MF_") {
+			return true
+		}
+		for _, u := range en.CS.ModelFieldUses[strings.TrimPrefix(hn, "MF_")] {
+			if !loaded[u] {
+				return false
+			}
+		}
+		return true
+	}
 	for _, hn := range so.HeapNames() {
-		hdr.WriteString(fmt.Sprintf("(declare-const %s_0 %s)\n", hn, so.heaps[hn]))
+		if !strings.HasPrefix(hn, "MF_") {
+			hdr.WriteString(fmt.Sprintf("(declare-const %s_0 %s)\n", hn, so.heaps[hn]))
+		}
 	}
 	hdr.WriteString(e.preludeText)
+	for _, hn := range so.HeapNames() {
+		if strings.HasPrefix(hn, "MF_") && mfOK(hn) {
+			hdr.WriteString(fmt.Sprintf("(declare-const %s_0 %s)\n", hn, so.heaps[hn]))
+		}
+	}
 	for _, d := range e.decls {
 		if f := strings.Fields(d); len(f) > 1 && (f[0] == "(declare-fun" || f[0] == "(define-fun-rec" || f[0] == "(declare-const" || f[0] == "(define-fun") {
 			if strings.Contains(e.preludeText, f[0]+" "+f[1]+" ") || f[1] == "nextRef0" {
@@ -247,6 +268,7 @@ func (en *Engine) finish(e *Exec, fc *FuncContract, res *UnitResult) {
 	}
 	res.Header = hdr.String()
 	res.VCs = e.obls
+	res.Watches = e.watches
 }
 
 func sortFromHeapName(so *Sorts, n string) string {
